@@ -10,6 +10,7 @@ import (
 	"github.com/bluenviron/mediamtx/internal/logger"
 	"github.com/bluenviron/mediamtx/internal/recordstore"
 	"github.com/bluenviron/mediamtx/internal/stream"
+	"github.com/bluenviron/mediamtx/internal/verifhook"
 )
 
 type recorderInstance struct {
@@ -89,6 +90,7 @@ func (ri *recorderInstance) run() {
 		select {
 		case err := <-ri.reader.Error():
 			ri.Log(logger.Error, err.Error())
+			verifhook.Point("recorder.instance.afterError")
 
 		case <-ri.terminate:
 		}
